@@ -198,46 +198,7 @@ def run(rep: Report, prog: Program, tier: str) -> None:
     if len(ai.analysed_funcs) < 60:
         raise AnalysisError(f"only {len(ai.analysed_funcs)} functions analysed from the receive roots; expected >= 60")
 
-    # (e) timer typestate: the `assert handle is None` of the SCTP timer starters is an assertion over local state that the
-    # facts domain cannot carry across an await; it is decided here as a typestate rule instead (cancel/guard before start).
-    from engine.events import EventsDomain, EvState
-    rep.rule("C05-TIMER", "every _tN_start() is preceded on every path by _tN_cancel() or a handle-is-None guard (its assert cannot fire on a repeated chunk)", min_instances=5)
-    T = "rtcsctptransport.RTCSctpTransport"
-    FIRST_ARM = {f"{T}._init": "called exactly once, from start() under the __started latch, before any other T1 user can run"}
-    starters = {f"self._t{n}_start": str(n) for n in (1, 2, 3)}
-    n_sites = 0
-    for fi in prog.cls(T).methods.values():
-        if fi.name.endswith("_expired") or not any(isinstance(n, ast.Call) and unparse(n.func) in starters for n in walk_no_nested(fi.node)):
-            continue
-
-        def ev_of(node, f):
-            if isinstance(node, ast.Call):
-                nm = unparse(node.func)
-                for n in ("1", "2", "3"):
-                    if nm == f"self._t{n}_cancel":
-                        return [f"t{n}-clear"]
-                    if nm == f"self._t{n}_start":
-                        return [f"-t{n}-clear"]
-            return []
-        sites = []
-
-        def ob(node, st: EvState, f, sites=sites):
-            if isinstance(node, ast.Call) and unparse(node.func) in starters:
-                n = starters[unparse(node.func)]
-                guarded = st.has_guard(f"not self._t{n}_handle", True) or st.has_guard(f"self._t{n}_handle is None", True) or st.has_guard(f"self._t{n}_handle", False)
-                sites.append((node, n, f"t{n}-clear" in st.events, guarded))
-        EventsDomain(prog, ev_of, ob, kill_guards_on_call=False).run(fi)
-        for node, n, cleared, guarded in sites:
-            n_sites += 1
-            what = f"{fi.qualname}: {unparse(node)[:60]} @ line {node.lineno}"
-            if cleared or guarded:
-                rep.ok("C05-TIMER", what, sample=f"_t{n}_cancel() on every path before it" if cleared else f"guarded by the T{n} handle being unset")
-            elif fi.qualname in FIRST_ARM:
-                rep.ok("C05-TIMER", what, sample="first arming: " + FIRST_ARM[fi.qualname])
-            else:
-                rep.fail(mk_finding(prog, PROP, "C05-TIMER", fi, node,
-                                    f"T{n} is started without _t{n}_cancel() or a handle check on every path before it: a repeated chunk (retransmitted because our reply was lost) "
-                                    f"trips `assert self._t{n}_handle is None`, the AssertionError escapes _handle_data and closes the DTLS transport",
-                                    construct=f"_t{n}_start without cancel"))
-    if n_sites < 5:
-        raise AnalysisError(f"only {n_sites} timer start sites found")
+    # (e) timer typestate and (f) sign rule: shared with C02 (rules/common.py)
+    from .common import sign_rule, timer_rule
+    timer_rule(rep, prog, PROP, "C05-TIMER")
+    sign_rule(rep, prog, PROP, "C05-SIGN", sorted(ai.analysed_funcs))
